@@ -836,11 +836,21 @@ type condEval func(v ssa.Value) (bool, bool)
 // Returns a witness path description if not.
 func exitsInState(li *loopInfo, ev condEval) (bool, string) {
 	type item struct {
-		b    *ssa.BasicBlock
-		path []int
+		b, pred *ssa.BasicBlock
+		path    []int
 	}
-	seen := map[*ssa.BasicBlock]bool{}
-	stack := []item{{li.header, []int{li.header.Index}}}
+	// a branch on a short-circuit phi (`a && b` compiled to phi [pred1: false, pred2: b]) is decided by the edge the
+	// path came in on: such blocks are visited once per predecessor
+	phiCond := func(b *ssa.BasicBlock) *ssa.Phi {
+		if iff, ok := b.Instrs[len(b.Instrs)-1].(*ssa.If); ok {
+			if ph, isPhi := iff.Cond.(*ssa.Phi); isPhi && ph.Block() == b {
+				return ph
+			}
+		}
+		return nil
+	}
+	seen := map[[2]*ssa.BasicBlock]bool{}
+	stack := []item{{li.header, nil, []int{li.header.Index}}}
 	first := true
 	for len(stack) > 0 {
 		it := stack[len(stack)-1]
@@ -848,16 +858,29 @@ func exitsInState(li *loopInfo, ev condEval) (bool, string) {
 		if !first && it.b == li.header {
 			return false, fmt.Sprint(it.path)
 		}
-		if seen[it.b] {
+		key := [2]*ssa.BasicBlock{it.b, nil}
+		ph := phiCond(it.b)
+		if ph != nil {
+			key[1] = it.pred
+		}
+		if seen[key] {
 			continue
 		}
-		seen[it.b] = true
+		seen[key] = true
 		first = false
 		last := it.b.Instrs[len(it.b.Instrs)-1]
 		var succs []*ssa.BasicBlock
 		switch t := last.(type) {
 		case *ssa.If:
-			known, val := evalCond(t.Cond, ev, it.b)
+			cond := t.Cond
+			if ph != nil && it.pred != nil {
+				for i, p := range it.b.Preds {
+					if p == it.pred && i < len(ph.Edges) {
+						cond = ph.Edges[i]
+					}
+				}
+			}
+			known, val := evalCond(cond, ev, it.b)
 			if known {
 				if val {
 					succs = []*ssa.BasicBlock{it.b.Succs[0]}
@@ -876,7 +899,7 @@ func exitsInState(li *loopInfo, ev condEval) (bool, string) {
 			if !li.body[s] {
 				continue // exit edge
 			}
-			stack = append(stack, item{s, append(append([]int{}, it.path...), s.Index)})
+			stack = append(stack, item{s, it.b, append(append([]int{}, it.path...), s.Index)})
 		}
 	}
 	return true, ""
@@ -1237,7 +1260,7 @@ func (pc *progressCtx) lexEvalFiltered(c int64, known func(ssa.Instruction) bool
 			// evaluated on a lexer whose current character is 0 (readChar keeps it there), for every setting of the
 			// lexer's boolean mode flags; the verdict is known when all settings agree
 			if call, isCall := x.Tuple.(*ssa.Call); isCall && c == 0 && known(call) {
-				if sc := call.Call.StaticCallee(); sc != nil && sc.Blocks != nil && verdictIndex(sc) == x.Index && sc.Signature.Recv() != nil && strings.HasSuffix(derefTypeString(sc.Signature.Recv().Type()), "lexer.Lexer") {
+				if sc := call.Call.StaticCallee(); sc != nil && sc.Blocks != nil && x.Index < sc.Signature.Results().Len() && isBoolT(sc.Signature.Results().At(x.Index).Type()) && sc.Signature.Recv() != nil && strings.HasSuffix(derefTypeString(sc.Signature.Recv().Type()), "lexer.Lexer") {
 					if r, ok := pc.lexVerdictAtEnd(sc, x.Index); ok {
 						return constant.MakeBool(r), true
 					}
